@@ -827,3 +827,32 @@ mutant("c14-id-first-inc", "C14", "R14.d", INST,
 refactor("c14-r-copy-loads", "C14", DUR,
          "        machine_durations = self.dispatcher.instance.machine_loads\n",
          "        machine_durations = list(self.dispatcher.instance.machine_loads)\n        machine_durations.append(0)\n        machine_durations.pop()\n")
+
+# ------------------------------------------------------------------ C03
+mutant("c03-sort-start-only", "C03", "R03.d", ORT,
+       "            sorted(\n                scheduled_operation, key=lambda x: (x.start_time, x.end_time)\n            )",
+       "            sorted(scheduled_operation, key=lambda x: x.start_time)", "the original defect D12")
+mutant("c03-model-in-init-only", "C03", "R03.a", ORT,
+       "        self.model = cp_model.CpModel()\n        self.solver = cp_model.CpSolver()\n        self.solver.parameters.log_search_progress",
+       "        self.solver = cp_model.CpSolver()\n        self.solver.parameters.log_search_progress",
+       "constraints of an earlier solve accumulate in the reused model")
+mutant("c03-table-not-cleared", "C03", "R03.a", ORT,
+       "        self._operations_start = {}\n        if self.max_time_in_seconds is not None:", "        if self.max_time_in_seconds is not None:",
+       "stale start variables of a previous (larger) instance enter the max-equality")
+mutant("c03-no-objective", "C03", "R03.b", ORT,
+       "        self.model.Minimize(self._makespan)", "        pass")
+mutant("c03-precedence-from-2", "C03", "R03.b", ORT,
+       "            for position in range(1, len(job)):", "            for position in range(2, len(job)):", "first pair of every job unconstrained")
+mutant("c03-precedence-strict-start", "C03", "R03.b", ORT,
+       "                    self._operations_start[job[position - 1]][1]\n                    <= self._operations_start[job[position]][0]",
+       "                    self._operations_start[job[position - 1]][0]\n                    <= self._operations_start[job[position]][0]",
+       "start <= start: operations of a job may overlap")
+mutant("c03-makespan-starts", "C03", "R03.b", ORT,
+       "        end_times = [end for _, end in self._operations_start.values()]", "        end_times = [start for start, _ in self._operations_start.values()]")
+mutant("c03-feasible-rejected", "C03", "R03.c", ORT,
+       "        if status not in {cp_model.OPTIMAL, cp_model.FEASIBLE}:", "        if status not in {cp_model.OPTIMAL}:")
+mutant("c03-always-optimal", "C03", "R03.c", ORT,
+       "            \"status\": \"optimal\" if status == cp_model.OPTIMAL else \"feasible\",", "            \"status\": \"optimal\" if status != cp_model.INFEASIBLE else \"feasible\",")
+refactor("c03-r-sort-duration", "C03", ORT,
+         "            sorted(\n                scheduled_operation, key=lambda x: (x.start_time, x.end_time)\n            )",
+         "            sorted(\n                scheduled_operation, key=lambda x: (x.start_time, x.operation.duration)\n            )")
